@@ -33,7 +33,7 @@ NAME = "resolve"
 DRIVER_SRCS = ["resolve_driver.cpp"]
 MODEL_FAMILY = "resolve"
 MODE = "diff"
-BUDGET = {"quick": 1500, "thorough": 15000}
+BUDGET = {"quick": 1500, "thorough": 60000}
 
 KINDS = {"crash", "order_dependent", "wrong_selection", "missed_ambiguity", "false_ambiguity", "false_nomatch",
          "false_match", "rank_not_min", "tied_set", "unsound_match", "output_not_substitution", "bind_accepts_rebind",
